@@ -43,6 +43,11 @@ TRACKED = {
 SLEEP_DECISIONS = [("e", "SleepDecision", "SLEEP"), ("e", "SleepDecision", "DEFER"), ("e", "SleepDecision", "ABORT")]
 
 
+def flag1(flags: frozenset, f: str) -> frozenset:
+    """keep only the first flag of a path: bounds the typestate (2^flags otherwise)"""
+    return flags if flags else frozenset({f})
+
+
 class RunnerClient(Client):
     """descends through the retry machinery; subclasses define the typestate"""
 
